@@ -516,7 +516,18 @@ impl<TokenIter: Iterator<Item = Result<Token>>> Parser<TokenIter> {
         syntax_env: &Rc<LexicalScope<Transformer>>,
     ) -> Result<Option<Statement>> {
         Ok(match self.current_datum()? {
-            Some(datum) => Some(Self::transform_to_statement(datum, syntax_env)?),
+            Some(datum) => {
+                // a syntax error found while the form is expanded carries at least the location
+                // of the form itself
+                let location = datum.location;
+                match Self::transform_to_statement(datum, syntax_env) {
+                    Ok(statement) => Some(statement),
+                    Err(Located {
+                        data,
+                        location: error_location,
+                    }) => return Err(data.locate(error_location.or(location))),
+                }
+            }
             None => None,
         })
     }
